@@ -442,7 +442,7 @@ func c01Alphabet() []c01Stmt {
 	return []c01Stmt{
 		{"v": sl()}, {"v": sl("v1", "zz", "v2")}, {"e": sl()}, {"e": sl("e1", "e2")},
 		{"out": sl()}, {"out": sl("k")}, {"in": sl()}, {"both": sl()}, {"outE": sl()}, {"inE": sl("l", "k")}, {"bothE": sl()},
-		c01Cond("x", "GT", 0.0), {"hasLabel": sl("A", "k")}, {"hasId": sl("v1", "v2", "e1")}, {"hasKey": sl("name")},
+		c01Cond("x", "GT", 0.0), {"hasLabel": sl("A", "k")}, {"hasId": sl("v1", "v2", "e1")}, {"hasKey": sl("name", "x")},
 		{"as": "a"}, {"as": "b"}, {"select": map[string]interface{}{"marks": sl("a")}}, {"select": map[string]interface{}{"marks": sl("a", "b")}},
 		{"fields": sl("name")}, {"render": map[string]interface{}{"n": "name", "g": "_gid", "a": "$a._label"}}, {"path": sl()},
 		{"unwind": "tags"}, {"count": ""},
@@ -600,7 +600,11 @@ func c01RandomProgram(r *rand.Rand, n int, prod bool, withDistinct bool) []c01St
 			}
 			q = append(q, c01Stmt{"hasId": ids})
 		case c == 9:
-			q = append(q, c01Stmt{"hasKey": sl(Pick(r, c01Paths))})
+			ks := sl(Pick(r, c01Paths))
+			if r.Intn(2) == 0 {
+				ks = append(ks, Pick(r, c01Paths))
+			}
+			q = append(q, c01Stmt{"hasKey": ks})
 		case c == 10:
 			m := Pick(r, []string{"a", "b", "c"})
 			q = append(q, c01Stmt{"as": m})
